@@ -23,7 +23,7 @@ CHARSETS = [("US-ASCII", None), ("ISO-8859-1", None), ("Windows-1252", None), ("
             ("UTF-16", "mostSignificantByteFirst"), ("UTF-16", "leastSignificantByteFirst"),
             ("UTF-32", "mostSignificantByteFirst"), ("UTF-32", "leastSignificantByteFirst")]
 
-ADJUSTMENTS = [(8, 0), (8, 8), (1, 0), (1, -8), None]
+ADJUSTMENTS = [(8, 0), (8, 8), (1, 0), (1, -8), None, (8, 16)]   # (8, 16) on the calibrated LENC: the reference is -2 for raw 0 and the length 0 bits
 
 
 def _codec(cs, bo):
@@ -143,6 +143,8 @@ def string_variants(cs, bo, tier):
             for ref, use_cal in (("LEN", True), ("LEN", False), ("LENC", True), ("LENC", False)):
                 if tier == "quick" and ref == "LENC" and adj in ((8, 8), (1, -8)):
                     continue
+                if adj == (8, 16) and not (ref == "LENC" and use_cal and dname == "whole"):
+                    continue
                 d = Dyn(ref, use_cal, adj[0] if adj else None, adj[1] if adj else None)
                 out.append((f"str:{dname}:dyn:{ref}:{'cal' if use_cal else 'raw'}:{adj}", StrEnc(d, cs, bo, term, lead), ("dyn", ref, use_cal, adj, extra)))
         # a reference whose calibrated value is fractional (0.5 x raw): the length is slope * value + intercept, computed on the value as it is
@@ -171,6 +173,8 @@ def binary_variants(tier):
     out.append(("bin:lookup-guarded", BinEnc(lkg), ("lookup", (20, 20, 20, 0))))
     for adj in ADJUSTMENTS:
         for ref, use_cal in (("LEN", True), ("LEN", False), ("LENC", True), ("LENC", False)):
+            if adj == (8, 16) and not (ref == "LENC" and use_cal):
+                continue
             d = Dyn(ref, use_cal, adj[0] if adj else None, adj[1] if adj else None)
             out.append((f"bin:dyn:{ref}:{'cal' if use_cal else 'raw'}:{adj}", BinEnc(d), ("dyn", ref, use_cal, adj, 0)))
     for adj in ((8, 0), (16, 8), (4, 0), (2, 1), (1, 0), None):
@@ -190,6 +194,8 @@ def len_values(adj, use_cal, ref):
         vals = [0, 1, 2, 3, 4, 5]
     if ref == "LENC" and use_cal:
         vals = sorted(set(v // 2 + 1 for v in vals) | {v + 1 for v in vals if v <= 4})
+        if adj and adj[1] >= 16:
+            vals = [0] + vals   # a negative reference (-2) whose adjusted length is not negative
     if ref == "LENH":
         vals = list(range(0, 11)) if adj and adj[0] <= 8 else list(range(0, 6)) if adj else [0, 1, 2, 3, 16, 17, 64]
     return vals
